@@ -121,7 +121,7 @@ pub open spec fn zip(c: Option<Comp>, plain: Seq<u8>) -> Option<Seq<u8>> { match
         // the receiver handed back is the other end of the sender registered under the id handed back
         final(self).pending_requests.registered(r.0, r.1.chan()),                                                  // [C04.receiver_paired_with_its_request_id]
 //@end
-//@fn client/src/streams/request_reply/requestor.rs :: Requestor :: request [props=C04]
+//@fn client/src/streams/request_reply/requestor.rs :: Requestor :: request [props=C04] [guards=*]
     requires
         alloc_budget() >= usize::MAX,
     ensures
